@@ -83,6 +83,11 @@ func genC04(mode string) func(rng *Rng, sc *Scenario) {
 			sc.Clients = append(sc.Clients, cl)
 		}
 		sc.OrderSeed = rng.U64() | 1
+		if mode == "concurrent" && rng.Chance(1, 5) {
+			// a recovered panic earlier in the history: what it leaves in the pool is part of what later chains run on
+			sc.Options.OnPanic = "p0"
+			plantPanic(rng, sc, &sc.Clients[0].Reqs[0])
+		}
 		sc.Pool = GenPool(rng)
 		sc.Sites = GenSites(rng)
 		if nClients > 1 {
@@ -165,10 +170,18 @@ func checkC04(sc *Scenario) *CheckOut {
 		out.Viol = append(out.Viol, Violation{"C04", "no-progress", "run exceeded its step bound", ""})
 		return out
 	}
+	if v := poolViolation("C04", res); v != nil {
+		out.Viol = append(out.Viol, *v)
+		return out
+	}
 	nocache := BuildWorld(sc, BuildOpt{NoCache: true})
 	all := res.All()
 	out.Requests = len(all)
 	for _, rec := range all {
+		if len(rec.PanicAt) > 0 {
+			out.Faults["handler-panic"]++
+			continue // what a panicking request does is C09's business; the others are judged as always
+		}
 		rq := &sc.Clients[rec.Task].Reqs[rec.Idx]
 		chain := expectedChain(res.W, nocache, rec.Method, rec.Path)
 		if len(chain) >= 3 {
